@@ -5,6 +5,7 @@ package main
 import (
 	"encoding/json"
 	"fmt"
+	"runtime"
 	"sort"
 	"strings"
 )
@@ -289,6 +290,8 @@ type AgedSpec struct {
 	Eval  func(w any, v []int) (clause, detail string)
 }
 
+const agedMaxCases = 3000
+
 type AgedCase struct {
 	Group   string            `json:"group"`
 	Vectors [][]int           `json:"vectors"` // fed in this order; the last one fails
@@ -353,6 +356,15 @@ func (a *AgedSpec) Run(c *Ctx) {
 			if c.Expired() {
 				a.Close(w)
 				return
+			}
+			// a world lives for at most agedMaxCases cases (its packet log, connection table and
+			// goroutines grow with every case); the next one starts from scratch
+			if i-start >= agedMaxCases {
+				a.Close(w)
+				runtime.GC()
+				w = a.Open(vs[0])
+				start = i
+				c.Count("aged_world_restarts", 1)
 			}
 			cl, detail := a.Eval(w, v)
 			c.Res.Evaluations++
